@@ -294,11 +294,13 @@ theorem envGet_sameValues (e : Nat) (name : String) (st : St) :
 
 /-! ### the constant check of `CreateOrSet` -/
 
-/-- `Equals(old, val)` is false in state `st1`: different object types (a Reference is not type-equal
-to a value), or the dereferenced values compare unequal -/
+/-- `sameValue(old, val)` is false in state `st1`: different object types (a Reference is not type-equal
+to a value), or the dereferenced values compare unequal, or they compare equal but differ in a type
+at some level (`[1,2]` against `[1.0,2]`) -/
 def NotEqualsIn (st1 : St) (old val : Obj) : Prop :=
   old.typeNum ≠ val.typeNum ∨
-  ∃ o v c, (run (valueOf old) st1).1 = .ok o ∧ (run (valueOf val) st1).1 = .ok v ∧ cmp o v = .ok c ∧ c ≠ 0
+  ∃ o v c, (run (valueOf old) st1).1 = .ok o ∧ (run (valueOf val) st1).1 = .ok v ∧ cmp o v = .ok c ∧
+    (c ≠ 0 ∨ sameTypes o v = false)
 
 theorem run_of_readOnly {x : M α} (hx : ReadOnly x) {st : St} {a : α} (h : (run x st).1 = .ok a) :
     run x st = (.ok a, st) := by
@@ -339,7 +341,10 @@ theorem createOrSet_constant_refused (e : Nat) (name : String) (val : Obj) (crea
       rw [run_bind, run_liftR, hcmp]
       dsimp only
       rw [run_bind, run_pure]
-      have : (c == 0) = false := by simp [hc0]
+      have : (c == 0 && sameTypes o v) = false := by
+        rcases hc0 with h | h
+        · simp [h]
+        · simp [h]
       simp only [this]
       exact ⟨rfl, hsv⟩
 
